@@ -149,10 +149,63 @@ pub fn pr<W: RtcpPacketWriter>(w: W, on: bool) -> W {
                 let _ = w.calculate_size();
                 let _ = w.get_padding();
                 let _ = DynW(&w).write_into(&mut b[..]);
+                decoys_for(&w, &mut b[..]);
             }
         });
     }
     w
+}
+
+/// Another builder instance of the same type living its whole life between two calls on the builder under
+/// observation: configured, sized and written. A builder's output is a function of its own configuration;
+/// anything remembered outside the builder (a `static`, a `thread_local!`) by one instance and picked up by another
+/// shows as a difference between the probed and the plain flavour. The decoy is chosen by the type of the observed
+/// builder (a per-type cache is the realistic case) and, for payload feedback, by the observed builder's size.
+#[inline(never)]
+fn decoys_for<W: RtcpPacketWriter>(w: &W, buf: &mut [u8]) {
+    fn go<D: RtcpPacketWriter>(d: D, buf: &mut [u8]) {
+        let _ = d.calculate_size();
+        let _ = d.get_padding();
+        let _ = DynW(&d).write_into(buf);
+    }
+    let name = std::any::type_name::<W>();
+    let short = name.rsplit("::").next().unwrap_or(name);
+    if short.starts_with("ByeBuilder") {
+        go(Bye::builder().padding(8).add_source(0xD0D0_0001).add_source(0xD0D0_0002).reason("decoy bye"), buf);
+    } else if short.starts_with("AppBuilder") {
+        go(App::builder(0xD0D0_0003, "dcoy").subtype(21).data(&[1u8, 2, 3, 4, 5, 6, 7, 8][..]).padding(4), buf);
+    } else if short.starts_with("SenderReportBuilder") {
+        go(SenderReport::builder(0xD0D0_0004).ntp_timestamp(0x0D0C_0B0A_0908_0706).rtp_timestamp(77).packet_count(78).octet_count(79).padding(12).add_report_block(ReportBlock::builder(0xD0D0_0005).fraction_lost(9).cumulative_lost(10)), buf);
+    } else if short.starts_with("ReceiverReportBuilder") {
+        go(ReceiverReport::builder(0xD0D0_0006).add_report_block(ReportBlock::builder(0xD0D0_0007)).add_report_block(ReportBlock::builder(0xD0D0_0008)).padding(4), buf);
+    } else if short.starts_with("SdesBuilder") {
+        decoy_sdes(buf);
+    } else if short.starts_with("TransportFeedbackBuilder") || short.starts_with("NackBuilder") {
+        go(TransportFeedback::builder_owned(Nack::builder().add_rtp_sequence(1).add_rtp_sequence(40).add_rtp_sequence(41)).sender_ssrc(0xD0D0_000A).media_ssrc(0xD0D0_000B).padding(4), buf);
+    } else if short.starts_with("PayloadFeedbackBuilder") {
+        match w.calculate_size().unwrap_or(0) / 4 % 4 {
+            0 => go(PayloadFeedback::builder_owned(Pli::builder()).sender_ssrc(0xD0D0_000C).media_ssrc(0xD0D0_000D).padding(8), buf),
+            1 => go(PayloadFeedback::builder_owned(Rpsi::builder().payload_type(101).native_data_owned(&[0xDE, 0xC0, 0x1F][..], 3)).sender_ssrc(0xD0D0_000E).media_ssrc(0xD0D0_000F), buf),
+            2 => go(PayloadFeedback::builder_owned(Sli::builder().add_lost_macroblock(3, 4, 5)).sender_ssrc(1).media_ssrc(2), buf),
+            _ => go(PayloadFeedback::builder_owned(Fir::builder().add_ssrc(0xD0D0_0010, 7)).sender_ssrc(3).media_ssrc(4), buf),
+        }
+    } else if short.starts_with("RpsiBuilder") {
+        go(Rpsi::builder().payload_type(101).native_data_owned(&[0xDE, 0xC0, 0x1F][..], 3), buf);
+    } else if short.starts_with("SliBuilder") {
+        go(Sli::builder().add_lost_macroblock(3, 4, 5), buf);
+    } else if short.starts_with("FirBuilder") {
+        go(Fir::builder().add_ssrc(0xD0D0_0010, 7), buf);
+    } else if short.starts_with("UnknownBuilder") {
+        go(Unknown::builder(211, &[0xD0u8, 0xD1, 0xD2, 0xD3, 0xD4, 0xD5, 0xD6, 0xD7][..]).count(3).padding(4), buf);
+    } else if short.starts_with("CompoundBuilder") || short.starts_with("PacketBuilder") {
+        go(Compound::builder().add_packet(ReceiverReport::builder(0xD0D0_0011)).add_packet(PacketBuilder::from(Bye::builder().add_source(0xD0D0_0012).padding(4))), buf);
+    }
+}
+
+fn decoy_sdes(buf: &mut [u8]) {
+    let w = Sdes::builder().padding(4).add_chunk(SdesChunk::builder(0xD0D0_0009).add_item(SdesItem::builder(SdesItem::CNAME, "decoy")).add_item_owned(SdesItem::builder(SdesItem::PRIV, "val").prefix(&b"pre"[..])));
+    let _ = w.calculate_size();
+    let _ = DynW(&w).write_into(buf);
 }
 
 /// In a list of `n` adds, the positions after which the probe flavour queries the builder: the first
@@ -171,6 +224,7 @@ pub fn pr_chunk<'a>(w: SdesChunkBuilder<'a>, on: bool) -> SdesChunkBuilder<'a> {
             if let Ok(mut b) = b.try_borrow_mut() {
                 let _ = w.write_into(&mut b[..0]);
                 let _ = w.write_into(&mut b[..]);
+                decoy_sdes(&mut b[..]);
             }
         });
     }
@@ -183,6 +237,7 @@ pub fn pr_item<'a>(w: SdesItemBuilder<'a>, on: bool) -> SdesItemBuilder<'a> {
             if let Ok(mut b) = b.try_borrow_mut() {
                 let _ = w.write_into(&mut b[..0]);
                 let _ = w.write_into(&mut b[..]);
+                decoy_sdes(&mut b[..]);
             }
         });
     }
